@@ -78,6 +78,16 @@ CLAIMED = {
             'element is pulled. A reference interpreter over generated programs is the natural exploration-level oracle.',
             'functions of known arity/result shape from vlib/targets.py; batch(n) groups the current output keys as documented.',
             '§3 C08'),
+    'C02': ('exploration',
+            'Hypothesis-generated pipelines (stacked aggregates x slicer sets x entry points) and batched streams against a brute-force group-by',
+            'Streams of 0..6 batches (categorical features whose values first appear in later batches, integer columns, ragged '
+            'per-example lists) are aggregated by 1..3 stacked exact aggregates (single/tuple input and output keys, '
+            'disable_slicing) under single-feature, cross, fan-out, restricted-value and intra-example mask slicers (one mask or one '
+            'per input, filter or replace) through five entry points; the result must equal, as a mapping, a brute-force group-by '
+            'over the concatenated rows (no MetricKey invented or dropped), and dropping the slicers must leave the unsliced keys '
+            'unchanged. A brute-force reference exists, so exploration with a differential oracle is the right level.',
+            'exact integer aggregates isolate C02 from floating-point batching (C01); masks shaped like the masked inputs (documented).',
+            '§3 C02'),
 }
 
 PENDING_REASON = 'check not built yet in this session (work in progress; see DESIGN.md §9 build order) - not claimed until its check exists'
